@@ -64,6 +64,10 @@ ASSUMPTIONS = [
     "(|input| <= 2, exp only of arguments bounded by 3), so every input is admissible and finite",
     "an exception escaping optimise_operator (including its own AssertionError self-check) on such an input is a "
     "violation: the docstring documents no error",
+    "NIFTy's pointwise 'sigmoid' is 1/2 + tanh(x)/2 (nifty/cl/pointwise.py); the reference model uses that definition",
+    "regions of the input space recorded in known_findings.json with an exclude_tag (no_node, shared_chain_leaf, "
+    "nested_shared_subtrees, multi_target_shared, node_inside_chain) are not generated / discarded; without such "
+    "entries nothing is excluded",
 ]
 
 XIN = 2.0          # bound on generated input magnitudes
@@ -311,6 +315,7 @@ def sharing(op):
       shared_nodes  : #_OpSum/_OpProd objects reached over >= 2 edges            ("shared subtree")
       shared_leaves : #non-FieldAdapter operator objects that are the bottom of >= 2 leaf operands ("shared leaf")
       nodes, depth  : #distinct nodes, maximal nesting
+      leaf_group    : largest number of leaf operands that start with the same bottom operator
       inner         : #nodes sitting at a non-final position of an _OpChain
       chain_reuse   : the same _OpChain OBJECT is a leaf operand at >= 2 places while a different leaf operand
                       starts with the same bottom operator
@@ -320,6 +325,7 @@ def sharing(op):
     leafobj, leafmulti, chainpos, chainbottom = {}, {}, {}, {}
     inner = [0]
     depth = {}
+    under_multi = set()
     keep = []      # keeps visited objects alive so that ids stay unique
 
     def operand(x, parent):
@@ -333,6 +339,8 @@ def sharing(op):
                     inner[0] += 1
                 if parent is not None:
                     kids[parent].append(id(o))
+                if any(isinstance(oo.target, ift.MultiDomain) for oo in ops):
+                    under_multi.add(id(o))     # becomes a leaf with MultiDomain target once o is replaced
                 d = max(d, visit(o))
         if not found:
             for o in reversed(ops):
@@ -374,10 +382,10 @@ def sharing(op):
 
     return dict(shared_nodes=len(shared),
                 shared_leaves=sum(1 for c in leafobj.values() if c > 1),
-                nodes=len(edges), depth=dmax, inner=inner[0],
+                nodes=len(edges), depth=dmax, inner=inner[0], leaf_group=max(leafobj.values(), default=0),
                 chain_reuse=any(c > 1 and leafobj[chainbottom[x]] > c for x, c in chainpos.items()),
                 nested=any(below(i, set()) for i in shared),
-                multi_shared=any(tgt_multi[i] for i in shared) or any(
+                multi_shared=any(tgt_multi[i] or i in under_multi for i in shared) or any(
                     c > 1 and leafmulti.get(i, False) for i, c in leafobj.items()))
 
 
@@ -464,7 +472,6 @@ def check(rec):
         close(J, rJ, "jacobian_vs_model", tol=1e-9, detail=f"input {n}")
 
     # the original is still usable and unchanged
-    require(op is pool[root], "harness", "")
     require(repr(op) == rep_before, "original_structure_changed", "repr(op) differs after optimise_operator")
     require(op.domain is dom_exp, "original_domain_changed", f"{op.domain}")
     again = evaluate(op)
@@ -478,7 +485,7 @@ def check(rec):
     classes = [f"shared_leaves_{_bucket(share['shared_leaves'])}", f"shared_subtrees_{_bucket(share['shared_nodes'])}",
                f"depth_{share['depth']}", f"keys_{len(dom_exp.keys())}", "root_" + type(op).__name__,
                "result_" + type(opt).__name__]
-    for tag, hit in (("no_node", share["nodes"] == 0), ("shared_chain_leaf_object", share["chain_reuse"]),
+    for tag, hit in (("no_node", share["nodes"] == 0), ("shared_chain_leaf", share["chain_reuse"]),
                      ("nested_shared_subtrees", share["nested"]), ("multi_target_shared", share["multi_shared"]),
                      ("node_inside_chain", share["inner"] > 0)):
         if hit:
@@ -491,6 +498,8 @@ def check(rec):
             classes.append("uses_" + kk)
     if share["shared_leaves"] and share["shared_nodes"]:
         classes.append("shared_leaf_and_subtree")
+    if share["leaf_group"] >= 3:
+        classes.append("leaf_group_of_3plus")
     if repr(opt) != rep_before:
         classes.append("optimiser_rewrote_tree")
     return dict(nontrivial=share["shared_leaves"] >= 1 and share["shared_nodes"] >= 1, classes=classes)
@@ -589,7 +598,11 @@ def recipes(draw, tier, subst):
     def binary(i, kind):
         a = meta[i]
         j = None
-        if draw(st.integers(0, 2)) == 2:   # mix in another input key when possible
+        if a["depth"] == 0 and draw(st.booleans()):   # another leaf chain
+            j = pick(lambda b: compatible(a, b, kind) and b["depth"] == 0)
+        elif 1 <= a["depth"] < 4 and draw(st.integers(0, 3)) == 0:   # the same subtree twice
+            j = i
+        if j is None and draw(st.integers(0, 2)) == 2:   # mix in another input key when possible
             j = pick(lambda b: compatible(a, b, kind) and max(a["depth"], b["depth"]) < 4 and not b["dom"] <= a["dom"])
         if j is None:
             j = pick(lambda b: compatible(a, b, kind) and max(a["depth"], b["depth"]) < 4)
@@ -615,12 +628,13 @@ def recipes(draw, tier, subst):
         k = sorted(keys)[n] if n < nkeys else draw(st.sampled_from(sorted(keys)))
         add(["fa", k], type=keys[k], lin=True, depth=0, bound=XIN, dom=frozenset([k]))
     # phase 2: leaf chains grown on top of each other (common chain prefixes made of the same objects)
-    for _ in range(draw(st.integers(1, 4))):
+    for _ in range(draw(st.integers(2, 6))):
         unary(pick())
     # phase 3: combinators over everything built so far
     ncomp = draw(st.integers(3, 10 if tier == "quick" else 14))
     for _ in range(ncomp):
-        i = pick()
+        # every fourth combinator works directly on leaf chains (many leaf operands that share chain prefixes)
+        i = pick((lambda b: b["depth"] == 0) if draw(st.integers(0, 3)) == 0 else None)
         m = meta[i]
         multi = isinstance(m["type"], tuple)
         choices = ["sum", "prod", "sum", "prod", "sub", "unary"]
@@ -680,7 +694,9 @@ def recipes(draw, tier, subst):
     if not nodes and "no_node" in excl:
         nodes = [binary(len(pool) - 1, "prod")]
     if nodes and (draw(st.integers(0, 19)) < 19 or "no_node" in excl):
-        root = nodes[-1] if draw(st.integers(0, 3)) < 3 else draw(st.sampled_from(nodes))
+        # mostly the deepest (latest among equals) entry, so that most of the pool hangs below the root
+        deepest = max(nodes, key=lambda i: (meta[i]["depth"], i))
+        root = deepest if draw(st.integers(0, 3)) < 3 else draw(st.sampled_from(nodes))
     else:
         root = draw(st.integers(0, len(pool) - 1))
     inputs = []
